@@ -49,7 +49,8 @@ PROPS["C03"] = {
     "quick": {"cases": 20000},
     "thorough": {"cases": 400000, "ceiling_s": 3000},
     "rule": ("G_noise texts over 0..255 (NUL included: explicit-range entry point); every prefix is a sub-case. Non-trivial = the text is rejected after its first character, "
-             "or a split point falls inside a multi-character token (pct triplet, IP literal, after ':' or '.'), or an allocation failure hit at k >= 2; distinct by text"),
+             "or a split point falls inside a multi-character token (pct triplet, IP literal, after ':' or '.'), or an allocation failure hit at k >= 2; distinct by text"
+             " Each split point and tail goes through the single-call entry (recording manager) and the state-based entry uriParseUriEx (default manager; nothing may be outstanding right at its failing return, before any cleanup); allocation faults are enumerated for both."),
     "assumptions": ["texts longer than 300 characters are not generated"],
 }
 
@@ -84,7 +85,7 @@ PROPS["C05"] = {
 
 PROPS["C06"] = {
     "level": "exploration",
-    "technique": "property-based testing (rapidcheck): differential against an RFC 3986 section 5.2 reference model computed from the two texts",
+    "technique": "property-based testing (rapidcheck): differential against an RFC 3986 section 5.2 reference model computed from the two texts; bounded-exhaustive enumeration of all (base, reference, option) triples of a small path domain",
     "level_text": ("Correlated (base, reference) pairs are resolved by the library and by an independent string/vector model of section 5.2.2 (merge 5.2.3, segment-list dot removal, "
                    "'//' guard, identical-scheme option); scheme, user info, host text/kind/value, port, path text, query and fragment are compared with presence, plus the "
                    "recomposed text, structural well-formedness and the relative-base error code. The model is self-tested on all RFC 5.4 examples and against literal 5.2.4 on rooted paths."),
@@ -93,8 +94,10 @@ PROPS["C06"] = {
     "thorough": {"cases": 1500000, "ceiling_s": 3000},
     "rule": ("pairs from one shared pool of schemes/authorities/segments (base scheme-less in ~10%); references: relative-path 35%, absolute-path 20%, same-scheme absolute 15%, "
              "other scheme 10%, network-path 10%, empty path 10%; both options; three API forms; both character types. Non-trivial = merge or absolute-path branch taken and a dot or "
-             "empty segment took part; distinct by (base, ref, option)"),
+             "empty segment took part; distinct by (base, ref, option)"
+             " Reference schemes related to the base's (extension, proper prefix, other letter case) in ~45% of the other-scheme references; IP hosts that differ in one half/octet; with the recording manager a quarter of the calls have their k-th allocation fail once (a still-successful result is held to the model). Enumerated domain: every base x reference x option of the bounded path domain."),
     "assumptions": ["paths with more than ~12 segments are rare", "schemes differing only in letter case are judged with the option off (the statement says 'equals')"],
+    "enumerate": {"pairs": "every base (scheme s, authority none|//h, path <= 2 (quick) / 3 (thorough) segments over {a, '', ., .., b:c}, rooted and rootless, query none|?q) x every reference (relative / absolute path <= 4 / 5 segments with tail none|?|#f, network-path, s:/t: absolute, empty) x both options"},
 }
 
 PROPS["C07"] = {
@@ -107,13 +110,14 @@ PROPS["C07"] = {
     "quick": {"cases": 40000},
     "thorough": {"cases": 1000000, "ceiling_s": 3000},
     "rule": ("history = 2 correlated parses + 1..8 steps (normalise 31%, resolve 23%, create reference 23%, make owner 15%, parse 8%), ambiguity-prone segment vocabulary ('', '.', '..', 'a:b', "
-             "'%2e'), all masks, both options/modes, both character types. Non-trivial = >= 2 non-parse steps of which at least one changed a path; distinct by history"),
+             "'%2e'), all masks, both options/modes, both character types. Non-trivial = >= 2 non-parse steps of which at least one changed a path; distinct by history"
+             " A third of the histories run under a fault plan: the k-th allocation (k=1 in a third of them) of every producing step fails once through a recording manager; what is still returned as success is judged like any other result. The second parse is a sibling of the base (same scheme/authority, base directory + fresh segments) in ~23%."),
     "assumptions": ["objects hand-built by a caller are outside the property ('returned by' the library)"],
 }
 
 PROPS["C08"] = {
     "level": "exploration",
-    "technique": "property-based testing (rapidcheck) against a normal-form reference model, with the mask dimension (64) and ownership (2) enumerated exhaustively per URI",
+    "technique": "property-based testing (rapidcheck) against a normal-form reference model, with the mask dimension (64) and ownership (2) enumerated exhaustively per URI; bounded-exhaustive enumeration over a small path domain; allocation-failure positions enumerated",
     "level_text": ("Each generated URI reference is normalised with ALL 64 masks from a borrowed and from an owned start state; the recomposed text must equal the model's normal form "
                    "(scheme/host case, triplet repair and decoding of unreserved characters per component, dot-segment removal with the leading '..' rule, untouched components unchanged), "
                    "a second application must change nothing, the mask reported by both mask queries must reproduce full normalisation, and mask 0 must mean 'already normal'."),
@@ -121,13 +125,15 @@ PROPS["C08"] = {
     "quick": {"cases": 4000},
     "thorough": {"cases": 100000, "ceiling_s": 3000},
     "rule": ("G_uri texts with case/percent-rich additions (upper-case schemes and hosts, %41 %7e %2F %c3%A4, IP-literal hosts in upper case) x 64 masks x {borrowed, owned} x {default, recording manager}; "
-             "non-trivial = at least two components change under the full mask or the path loses a dot segment; distinct by text (each covers its 128 (mask, ownership) sub-cases)"),
+             "non-trivial = at least two components change under the full mask or the path loses a dot segment; distinct by text (each covers its 128 (mask, ownership) sub-cases)"
+             " With the recording manager every allocation-failure position k of the full-mask call is tried in both ownership states: a call that still reports success must give the full normal form. Enumerated domain: every text of the bounded path domain x 64 masks x 2 ownerships."),
     "assumptions": ["non-ASCII wide characters are outside the statement"],
+    "enumerate": {"texts": "every base / reference / absolute URI of the bounded path domain (paths <= 3 / 5 segments over {a, '', ., .., b:c}) x 64 masks x 2 ownership states"},
 }
 
 PROPS["C10"] = {
     "level": "exploration",
-    "technique": "property-based testing (rapidcheck): round trip create-reference/resolve with shape clauses, way back cross-checked against the RFC 5.2 model",
+    "technique": "property-based testing (rapidcheck): round trip create-reference/resolve with shape clauses, way back cross-checked against the RFC 5.2 model; bounded-exhaustive enumeration of all (source, base, mode) triples of a small domain of absolute URIs",
     "level_text": ("For correlated pairs of absolute URIs (S, B) the reference D produced by uriRemoveBaseUri(Mm) in both modes is resolved against B with the library (and, on "
                    "disagreement, with the RFC 5.2 model) and must give S back, compared after dot-segment normalisation with an empty path under an authority read as '/'. Shape clauses "
                    "(scheme omitted / authority omitted / absolute path in domain-root mode / S unchanged for differing schemes) are demanded exactly where a reference of that shape "
@@ -137,13 +143,15 @@ PROPS["C10"] = {
     "thorough": {"cases": 1500000, "ceiling_s": 3000},
     "rule": ("(S, B) from one pool with forced overlap classes: identical 8%, S prefix of B 12%, B prefix of S 14%, differ in last segment 16%, other port/userinfo/authority 10%, query on one side 8%, "
              "rooted vs rootless 6%, other scheme 8%, unrelated path 12%, non-absolute 6%; '.'/'..' segments in 15%; both modes; both managers; both character types. "
-             "Non-trivial = same scheme and same host presence/text (the relative branch is reachable); distinct by (S, B, mode)"),
+             "Non-trivial = same scheme and same host presence/text (the relative branch is reachable); distinct by (S, B, mode)"
+             " Schemes related by extension/prefix in the other-scheme class; IP hosts differing in one half/octet; with the recording manager a quarter of the calls have their k-th allocation fail once. Enumerated domain: every (source, base) pair of absolute URIs of the bounded domain x both modes."),
     "assumptions": ["when both S and B lack a scheme either error code is accepted"],
+    "enumerate": {"pairs": "every ordered pair of absolute URIs (schemes s|t, authority none|//h|//g|//u@h:1, path <= 2 (quick) / 3 (thorough) segments over {a, '', ., .., b:c}, rooted and rootless, query none|?q) x both modes"},
 }
 
 PROPS["C09"] = {
     "level": "exploration",
-    "technique": "property-based testing (rapidcheck): metamorphic relation normalize(resolve(normalize(R),B)) == normalize(resolve(R,B)) plus kind-preservation invariants",
+    "technique": "property-based testing (rapidcheck): metamorphic relation normalize(resolve(normalize(R),B)) == normalize(resolve(R,B)) plus kind-preservation invariants; bounded-exhaustive enumeration of all (base, reference) pairs of a small path domain",
     "level_text": ("Generated references of all kinds (constructed without percent-encoded dots) are crossed with absolute bases of all shapes; resolving the normalised reference and "
                    "the original one must give the same normalised URI (text and uriEqualsUri), and normalisation alone must neither add/remove scheme or authority nor change a "
                    "scheme-less, authority-less path between empty / relative / absolute (judged on the recomposed text). A metamorphic relation needs no normal-form model, so it also "
@@ -152,8 +160,10 @@ PROPS["C09"] = {
     "quick": {"cases": 50000},
     "thorough": {"cases": 1200000, "ceiling_s": 3000},
     "rule": ("(B, R) from one pool: R relative-path 35%, absolute-path 20%, same-scheme absolute 15%, other scheme 10%, network-path 10%, empty path 10%; B absolute with authority / rooted / "
-             "rootless / empty path; segment vocabulary without %2e. Non-trivial = R is a relative-path or absolute-path reference whose path changes under normalisation; distinct by (B, R)"),
+             "rootless / empty path; segment vocabulary without %2e. Non-trivial = R is a relative-path or absolute-path reference whose path changes under normalisation; distinct by (B, R)"
+             " R is normalised after uriMakeOwner in a quarter of the cases and with its k-th allocation failing once in a quarter (a still-successful result is held to the relation). Enumerated domain: every base x reference of the bounded path domain x {borrowed, owned}."),
     "assumptions": ["references containing a percent-encoded dot are outside the statement and never generated (a safety filter counts discards: expected 0)"],
+    "enumerate": {"pairs": "every base x every reference of the bounded path domain (see C06) x {R borrowed, R made owner first}"},
 }
 
 PROPS["C11"] = {
@@ -166,7 +176,8 @@ PROPS["C11"] = {
     "quick": {"cases": 40000},
     "thorough": {"cases": 1500000, "ceiling_s": 3000},
     "rule": ("arms: 17% three independent G_uri texts, 42% text + single-component mutation (+ second mutation or copy), 17% equal by construction (re-parse / make-owner copy / resolve empty reference), "
-             "25% three objects out of a generated history. Non-trivial = the pair differs in exactly one component, or is equal without being the independent arm; distinct by case"),
+             "25% three objects out of a generated history. Non-trivial = the pair differs in exactly one component, or is equal without being the independent arm; distinct by case"
+             " A further arm (12%) compares overlapping views of one buffer ([0,n-i), [j,n) or [0,n-j), [0,n)), so ranges of different URIs start or end at the same address."),
     "assumptions": [],
 }
 
@@ -262,7 +273,8 @@ PROPS["C12"] = {
     "quick": {"cases": 25000},
     "thorough": {"cases": 600000, "ceiling_s": 3000},
     "rule": ("histories of 2 correlated parses + 1..7 steps incl. observers, then a final make-owner (50%) or normalise with mask 1..63 on an object nobody else borrows from; all host kinds; both "
-             "character types. Non-trivial = the final object was not yet owner and has >= 3 non-empty components including a host, or borrows from >= 2 source texts; distinct by history"),
+             "character types. Non-trivial = the final object was not yet owner and has >= 3 non-empty components including a host, or borrows from >= 2 source texts; distinct by history"
+             " In a quarter of the cases the k-th allocation (k in 1..8) of the final step fails once (default manager, through the redirected libc references): the caller's texts and all other objects must be untouched and everything must still be releasable."),
     "assumptions": ["a caller does not change an object in place while other live objects borrow from it (histories are generated legal)"],
 }
 
@@ -279,7 +291,8 @@ PROPS["C13"] = {
     "quick": {"cases": 25000},
     "thorough": {"cases": 600000, "ceiling_s": 3000},
     "rule": ("histories of 2 parses + 1..8 steps + 0..2 dissect/compose/free-list steps, manager chosen per step among {NULL, A, B, completed}; both character types. Non-trivial = >= 3 manager-taking "
-             "calls on >= 2 objects; distinct by history (incomplete-manager combinations counted separately)"),
+             "calls on >= 2 objects; distinct by history (incomplete-manager combinations counted separately)"
+             " For a quarter of the steps the j-th request of that call fails once, whichever manager serves it; all ledger invariants are checked regardless of the return code."),
     "assumptions": ["an object is always released with the manager that built it"],
 }
 
@@ -294,7 +307,8 @@ PROPS["C19"] = {
     "quick": {"cases": 25000},
     "thorough": {"cases": 600000, "ceiling_s": 3000},
     "rule": ("history of 2 correlated parses + 1..6 URI steps with observers + 1..5 extra steps (escape, unescape, query, filename, toString-with-capacity, possibly invalid parse) over code points 1..255; "
-             "non-trivial = >= 3 ops and at least one produced text of length >= 8; each of the ten function groups is exercised in > 15% of transcripts (histogram); distinct by transcript"),
+             "non-trivial = >= 3 ops and at least one produced text of length >= 8; each of the ten function groups is exercised in > 15% of transcripts (histogram); distinct by transcript"
+             " In a quarter of the transcripts the k-th allocation of every other step (from the third on) fails once, identically for both APIs: error paths must agree too."),
     "assumptions": ["inputs are restricted to code points 1..255 (representable in both types)"],
 }
 
@@ -315,7 +329,8 @@ PROPS["C20"] = {
     "quick": {"cases": [1500, 1500], "workers": 8},
     "thorough": {"cases": [40000, 40000], "ceiling_s": 3000},
     "rule": ("workload = shared inputs from correlated generators + 2..8 threads x 3..10 ops (13 op kinds) x 3 repetitions with generated yield/spin points, char or wchar_t API; run once under ASan with the "
-             "writable-segment checksum and once under TSan. Non-trivial = >= 2 threads and >= 2 ops on shared operands; distinct by workload"),
+             "writable-segment checksum and once under TSan. Non-trivial = >= 2 threads and >= 2 ops on shared operands; distinct by workload"
+             " Half of the ops on resolve / create-reference / private parse+normalise / parse+make-owner go through a thread-private recording manager, most of them with its k-th request failing once; the manager must never be handed a block that is not its own (e.g. one belonging to a shared operand) and must end empty."),
     "assumptions": ["threads only write to their own outputs (the statement's precondition)"],
 }
 
